@@ -218,7 +218,7 @@ def check_helpers(acc, shard, nshard):
                     if ok2 and again != keep:
                         acc.viol(name, 'a second call returns something else after the caller modified the first result', inst, repro=rp, observed=again)
                     got = keep
-                if got != exp or not isinstance(got, set):
+                if got != exp or not isinstance(got, (set, frozenset)):
                     acc.viol(name, 'result differs from the documented set operation', inst, repro=rp, observed=got, expected=exp)
                 if arg != L:
                     acc.viol(name, 'argument modified', inst, repro=rp)
@@ -257,10 +257,6 @@ def check_helpers(acc, shard, nshard):
                             got = keep
                         if got != exp:
                             acc.viol(name, 'result differs from Sigma^n / Sigma^<=n', inst, repro=dict(rp0, params={'words': [k, n]}), observed=got, expected=exp)
-        for text, exp in (('a b ε', {'a', 'b', ''}), ('_', {''}), ('', set()), (' ab  ba\n a ', {'ab', 'ba', 'a'})):
-            ok, got = core.lib_call(acc, 'parse_word_list', {'text': text}, la.parse_word_list, text, repro=None)
-            if ok and got != exp:
-                acc.viol('parse_word_list', 'wrong word set', {'text': text}, observed=got, expected=exp)
 
 
 def one_helper(acc, bits=None, bits2=None, words=None):
